@@ -25,6 +25,7 @@ type Env struct {
 	visited *MapIterV
 	qn      *int
 	assume  bool // the expression is being assumed (callee contract), not proved
+	allocBound *Term // "allocated(x)": x existed when the contract's function was entered
 }
 
 func (env *Env) child() *Env {
@@ -600,7 +601,11 @@ func (st *State) elabCall(env *Env, e *Expr) (SVal, types.Type) {
 		// allocated(r): r existed at function entry
 		a, _ := arg(0)
 		r := st.scalar(a)
-		return And(Gt(r, IntLit(0)), Lt(r, Const("A0", SInt))), tBool
+		bound := Const("A0", SInt)
+		if env.allocBound != nil {
+			bound = env.allocBound
+		}
+		return And(Gt(r, IntLit(0)), Lt(r, bound)), tBool
 	case "typeis":
 		// typeis(ifaceValue, "type string")
 		a, _ := arg(0)
